@@ -20,6 +20,10 @@ CLAIMS = {
          "stateless schedule enumeration + explicit-state BFS over operation histories on the real node", SCHED_NOTE),
  "C06": ("model_checking", "Races: every schedule within the bound of concurrent claims of one name/event (SpawnRegister, Process.RegisterName, Node.RegisterName), claim vs termination, unregister vs register, concurrent identifier generation. Histories: BFS over register/unregister/alias/event/link/monitor/meta/terminate sequences against a registry model with table-integrity invariants in every state. Identifiers: complete windows of 2^20 consecutive counter values at the bit boundaries of MakeRef.", "3 C06",
          "stateless schedule enumeration + explicit-state BFS + exhaustive window enumeration on the real node", SCHED_NOTE),
+ "C07": ("model_checking", "Every schedule (and early timer firing) within the bound of 1-2 callers issuing 2-3 calls against callees that answer late, twice, ten or eleven times, through a helper process, by name/alias, from a meta process, or terminate; correlation oracle on every returned value.", "3 C07",
+         "stateless schedule enumeration with virtual timers as scheduling alternatives", SCHED_NOTE),
+ "C19": ("model_checking", "Every schedule within the bound of 1-2 clients sending/calling through a real act.Pool (size 1-3, bounded worker mailboxes, parked worker, dead worker, worker crash, Add/RemoveWorkers); exactly-once, original-sender, own-reply, drop-accounting and ring-membership oracles.", "3 C19",
+         "stateless schedule enumeration (delay bounding) on the instrumented implementation", SCHED_NOTE),
  "C05": ("model_checking", "Every schedule within the bound of single causes and racing pairs of termination causes (handler error, panic, Kill, parent/stranger exit signals, busy and waiting targets) on the real node; terminate-once, finality and reason oracles incl. link/monitor observers.", "3 C05",
          "stateless schedule enumeration on the instrumented implementation", SCHED_NOTE),
 }
